@@ -3,6 +3,7 @@
 From Coq Require Import ZArith String Ascii List Bool Arith Lia.
 Require Import DS.Model.PyStr DS.Gen.GenNorm DS.Model.GC DS.Model.GCHist.
 Require Import DS.Proofs.PyStrProofs DS.Proofs.GCNormProofs DS.Proofs.GCProofs DS.Proofs.GCFaultProofs.
+Require Import DS.Proofs.GCAcceptProofs.
 Import ListNotations.
 Open Scope string_scope.
 Open Scope Z_scope.
@@ -309,7 +310,7 @@ Proof.
     + intros k ob es e L B He. destruct (INV _ _ L) as [Hin|L0]; [|eauto].
       destruct (news_shape _ _ _ _ _ _ _ Hin) as [[p [_ [_ E]]]|[[p [Hp [_ E]]]|[_ E]]]; rewrite E in B; try discriminate.
       cbn [as_manifest] in B. inversion B; subst es. specialize (V3 p Hp). rewrite forallb_forall in V3. specialize (V3 e He).
-      apply andb_true_iff in V3. destruct V3 as [V3 _]. exact V3.
+      apply andb_true_iff in V3. destruct V3 as [V3 _]. exact (accepts_under_data _ _ V3).
     + intros mk ob t L M B N. destruct (INV _ _ L) as [Hin|L0]; [|eauto].
       destruct (news_shape _ _ _ _ _ _ _ Hin) as [[p [_ [_ E]]]|[[p [_ [_ E]]]|[_ E]]]; rewrite E in B; discriminate.
   - intros l Hl. destruct (LISTS l Hl) as [Ho| ->]; [eapply snapshot_present_le; eauto|].
@@ -412,7 +413,7 @@ Proof.
     apply negb_true_iff. apply str_mem_false. intros [E|[]]. apply append_inj_l in E. congruence.
   - cbn [forallb]. rewrite (proj2 (has_key_false _ _) F1), (proj2 (has_key_false _ _) F2), (proj2 (has_key_false _ _) F3). reflexivity.
   - cbn [forallb fst snd]. rewrite resolve_spell. rewrite !andb_true_iff. repeat split; try reflexivity.
-    + apply startswith_app.
+    + apply (accepts_data_key literal_normpath _ name); [apply resolve_spell|reflexivity].
     + apply orb_true_iff. right. apply str_mem_In. left. reflexivity.
   - apply forallb_str_mem_self.
 Qed.
